@@ -199,7 +199,7 @@ example : Kv.get (fun a b : Nat => decide (a > b)) exDb 7 = some "g" ∧
 
 /-- a store with two databases; database 1 holds key `07` -/
 def exStore : KvApi.Store :=
-  ⟨[(1, ⟨0, [], ⟨[⟨0, [(([7], 0), [1])]⟩], []⟩⟩), (2, ⟨0, [], ⟨[], []⟩⟩)], [], false⟩
+  ⟨[(1, ⟨0, [], ⟨[⟨0, [(([7], 0), [1])]⟩], []⟩⟩), (2, ⟨0, [], ⟨[], []⟩⟩)], [], false, []⟩
 
 example : (KvApi.putR exStore 1 [7] 0 [2] Gen.IWKV_NO_OVERWRITE 0 0).2.isOk = false ∧
     (KvApi.putR exStore 1 [7] 0 [2] 0 0 2).2.isOk = false ∧
